@@ -126,6 +126,22 @@ class TU:
                 return ('nocompile', err)
             raise Broken('clang failed on %s:\n%s' % (self.src, err[-3000:]))
         self.stats['lower_s'] = round(time.time() - t0, 2)
+        # -O0 lowering only to name the library functions the harness instantiates (at -O1 most are inlined away)
+        self.o0_defined = []; self.o0_cg = {}
+        rc0, _, _, _, _ = run([CLANG] + [f for f in CLANG_FLAGS if f != '-O1'] + ['-O0'] + ['-D' + d for d in self.defs] + [self.src, '-o', ll + '.O0'], timeout=600)
+        if rc0 == 0:
+            cur = None
+            for line in open(ll + '.O0'):
+                if line.startswith('define '):
+                    mm = re.search(r'@("?)([^"(\s]+)\1\(', line)
+                    cur = mm.group(2) if mm else None
+                    if cur: self.o0_cg[cur] = set()
+                elif cur and ('call ' in line or 'invoke ' in line):
+                    for mm in re.finditer(r'@("?)([A-Za-z_$.0-9]+)\1', line):
+                        self.o0_cg[cur].add(mm.group(2))
+                elif line.startswith('}'):
+                    cur = None
+            os.unlink(ll + '.O0')
         t0 = time.time()
         try:
             mod_text = open(ll).read()
@@ -151,8 +167,8 @@ class TU:
         return ('ok', '')
 
     def reachable(self, h):
-        """functions (IR names) reachable from harness h via the IR call graph"""
-        cg = self.info['callgraph']; seen = set(); st = [h]
+        """functions (IR names) reachable from harness h via the -O0 IR call graph"""
+        cg = self.o0_cg or self.info['callgraph']; seen = set(); st = [h]
         while st:
             f = st.pop()
             if f in seen: continue
@@ -388,12 +404,14 @@ class Check:
         groups = {}
         for fl in q.failed:
             groups.setdefault(fl['description'], fl)
-        done_tapes = set()
-        for desc, fl in groups.items():
+        done = set(); budget = 5
+        order = sorted(groups.items(), key=lambda kv: (0 if kv[0].startswith('vassert') else 1, kv[0]))
+        for desc, fl in order:
+            if budget == 0: break
+            budget -= 1
             tape = q.tape_for(fl['property'])
             if tape is None:
                 self.broken.append('%s/%s: failing property %s (%s) but no trace could be produced' % (tu.tag, q.h, fl['property'], desc)); continue
-            key = tuple(tape)
             rc, out, err = native_run(exe, q.h, tape)
             fails = re.findall(r'^A (\d+) FAIL', out, re.M)
             san = re.search(r'(ERROR: AddressSanitizer: [^\n]*|runtime error: [^\n]*|ERROR: LeakSanitizer[^\n]*)', err)
@@ -406,15 +424,15 @@ class Check:
             what = {'harness': q.h, 'tu': tu.tag, 'cbmc': desc, 'cbmc_property': fl['property'], 'tape': tape,
                     'native_rc': rc, 'native_failed_asserts': fails, 'sanitizer': san.group(1) if san else None, 'native_frame': frame}
             if reproduced:
-                if key in done_tapes: continue
-                done_tapes.add(key)
+                key = (tuple(fails), (san.group(1)[:60] if san else None))
+                if key in done: continue
+                done.add(key)
                 self.record_violation(tu, q, [fl], tape, 'native', (out[-600:] + '\n' + err[-1500:]), what)
             else:
-                if 'pointer' in desc and 'overflow' in desc or desc.startswith('pointer relation') or 'pointer arithmetic' in desc:
-                    self.unconfirmed.append(what)
+                self.unconfirmed.append(what)
+                if ('pointer' in desc and 'overflow' in desc) or 'pointer relation' in desc or 'pointer arithmetic' in desc:
                     log('[%s] UNCONFIRMED (pointer-arithmetic finding no sanitizer can confirm; reported separately): %s %s' % (self.prop, q.h, desc))
                 else:
-                    self.unconfirmed.append(what)
                     self.broken.append('%s/%s: solver counterexample for "%s" does not reproduce natively (rc=%s): encoding or stub problem' % (tu.tag, q.h, desc, rc))
 
     def record_violation(self, tu, q, fls, tape, how, text, what=None):
